@@ -1046,7 +1046,8 @@ def realise(facts, goal, model, tries=400, seed=0):
 
 
 # ---------------------------------------------------------------------------- refusals are justified
-def check_short_refusals_justified(ck, it, func, root, need, what, rule="G-REFUSE", exc_suffix=("BytesTooShortError",), r0=0, only_func=None):
+def check_short_refusals_justified(ck, it, func, root, need, what, rule="G-REFUSE", exc_suffix=("BytesTooShortError",), r0=0, only_func=None,
+                                   also=None, skip_funcs=()):
     """The converse of the length refusals: every explicit, uncaught too-short error is raised only when the buffer really
     is shorter than `need` (the number of octets a well-formed unit of this kind occupies); otherwise well-formed input
     is refused.  -> number of refusal sites examined"""
@@ -1057,11 +1058,16 @@ def check_short_refusals_justified(ck, it, func, root, need, what, rule="G-REFUS
             continue
         if only_func is not None and not x["func"].endswith(only_func):
             continue
+        if any(x["func"].endswith(sf) or any(sf in str(fr) for fr in x["stack"]) for sf in skip_funcs):
+            continue
         if not feasible(x["facts"]):
             continue
         n += 1
         cons = f"`{x['text'][:50]}` in {x['func'].split('.')[-1]} refuses only input shorter than {what}"
-        st, m = budgeted_prove(x["facts"], binop("<", length(buf), need))
+        goal = binop("<", length(buf), need)
+        if also is not None:
+            goal = binop("or", goal, also)      # a second legitimate reason (e.g. the declared length itself is too small)
+        st, m = budgeted_prove(x["facts"], goal)
         if st == "proved":
             ck.proved(rule, func, cons, f"path condition implies len({root}) < {show(need)[:60]}")
         elif st == "refutable":
